@@ -49,6 +49,9 @@ fixed("F38", "C03", "3143cfd", "C03.belief|eliminated|Escape|compiler::translate
 fixed("F39", "C04", "8a6ba5d", "C04.chain-walk|walk|compiler::typing::InferContext::resolve_type_alias|recursion|type_aliases", "`type alias A = B  type alias B = A  fn f(x:A){x}`: the cycle was detected and recorded, but the aliases were registered anyway and resolving the annotation recursed until the stack overflowed (both back ends); cyclic aliases are no longer registered (findings/repro/F39_*.mmm)")
 fixed("F39", "C04", "8a6ba5d", "C04.chain-walk|walk|compiler::typing::InferContext::type_references_name|recursion|type_aliases", "same defect, second walker over the alias map")
 fixed("F40", "C04", "15680de", "C04.errors-as-values|parse-errors-stop|compiler::Context::emit_mir", "`fn dsp(){ f(else |> ) }`: emit_mir ran type checking, macro expansion and MIR generation on the tree with error nodes before looking at the parse errors; the MIR generator panicked (\"non function type\") on both back ends instead of returning the two syntax diagnostics (findings/repro/F40_*.mmm)")
+for _p in ("C07", "C08"):
+    fixed("F41", _p, "a82e8d2", "C08.apply-source|source|new_resume", "a hot swap requested before the first dsp call (swap time 0) with a changed layout: the VM's state storage is still empty, apply_patches read past it and panicked (debug assertion; slice index in release); now migrates from all-zero state (findings/repro/F41_*/swap_at_zero.rs)")
+    fixed("F41", _p, "a82e8d2", "C08.apply-source|source|try_hot_swap", "same defect in the WASM runtime's try_hot_swap (findings/repro/F41_*/swap_at_zero_wasm.rs)")
 fixed("F21", "C01", "52a554f", "C01.ops|truthiness|JmpIfNeg|F64Const+F64Gt", "`if` on a NaN condition took the then-branch on the VM (cond <= 0.0 test) and the else-branch on WASM (cond > 0.0)")
 
 # ---- C01 operator templates ---------------------------------------------------------------------------
